@@ -12,6 +12,7 @@ CONSTANTS
   CountMerges = TRUE
   MaxFaults = 1
   MaxCnt = 6
+  HCAhead = FALSE
   Concurrent = FALSE
   MaxLag = 0
 CONSTRAINT StateConstraint
